@@ -286,31 +286,45 @@ never empty, so it is never ROOT); `did_delete_files` uses the *read-only* looku
 answers ROOT for a file whose module reference was never allocated. -/
 
 inductive Event (Mod Content : Type) where
-  /-- `did_change`: full text of the last content change; the module is allocated if absent. -/
-  | didChange (m : Mod) (text : Content)
-  /-- `did_create_files`: every created file with the text read from disk (`none`: unreadable,
-  dropped by the `filter_map`). -/
-  | didCreate (files : List (Mod × Option Content))
-  /-- `did_rename_files`: (old, new) pairs, both allocated if absent. -/
-  | didRename (pairs : List (Mod × Mod))
-  /-- `did_delete_files`: `none` = a file the server has never heard of. -/
+  /-- `did_change`: full text of the last content change; the module is allocated if absent.
+  `none`: a document outside of the source directory (skipped since fix d68f1d6; the handler still
+  calls `update(vec![])`). -/
+  | didChange (m : Option Mod) (text : Content)
+  /-- `did_create_files`: every created file with the text read from disk (module `none`: outside of
+  the source directory; text `none`: unreadable — both dropped by the `filter_map`). -/
+  | didCreate (files : List (Option Mod × Option Content))
+  /-- `did_rename_files`: (old, new) pairs, both allocated if absent; a pair with a side outside of
+  the source directory is dropped. -/
+  | didRename (pairs : List (Option Mod × Option Mod))
+  /-- `did_delete_files`: `none` = a file the server has never heard of, or outside of the source
+  directory (read-only lookup answers ROOT). -/
   | didDelete (files : List (Option Mod))
 
-def readable (files : List (Mod × Option Content)) : List (Mod × Content) :=
-  files.filterMap (fun p => p.2.map (fun c => (p.1, c)))
+def readable (files : List (Option Mod × Option Content)) : List (Mod × Content) :=
+  files.filterMap (fun p => match p.1, p.2 with
+    | some m, some c => some (m, c)
+    | _, _ => none)
+
+def insidePairs (pairs : List (Option Mod × Option Mod)) : List (Mod × Mod) :=
+  pairs.filterMap (fun p => match p.1, p.2 with
+    | some a, some b => some (a, b)
+    | _, _ => none)
 
 /-- What the handlers call on `ServerState`. -/
 def glue (root : Mod) : Event Mod Content → Op Mod Content
-  | .didChange m t => .update [(m, t)]
+  | .didChange (some m) t => .update [(m, t)]
+  | .didChange none _ => .update []
   | .didCreate files => .update (readable files)
-  | .didRename pairs => .rename pairs
+  | .didRename pairs => .rename (insidePairs pairs)
   | .didDelete files => .remove (files.map (fun o => o.getD root))
 
-/-- File-system view of a notification (the editor buffer / the disk is the truth). -/
+/-- File-system view of a notification *restricted to the source directory* (the editor buffer /
+the disk is the truth; documents elsewhere are not modules of the project). -/
 def applyEvent (root : Mod) (S : Sources Mod Content) : Event Mod Content → Sources Mod Content
-  | .didChange m t => insert S m t
+  | .didChange (some m) t => insert S m t
+  | .didChange none _ => S
   | .didCreate files => (writeBatch root (readable files)).foldl (fun S p => insert S p.1 p.2) S
-  | .didRename pairs => pairs.foldl applyRename S
+  | .didRename pairs => (insidePairs pairs).foldl applyRename S
   | .didDelete files => (files.filterMap id).foldl erase S
 
 def applyEvents (root : Mod) (evs : List (Event Mod Content)) (S : Sources Mod Content) :
@@ -319,9 +333,9 @@ def applyEvents (root : Mod) (evs : List (Event Mod Content)) (S : Sources Mod C
 
 /-- No path maps to ROOT (`file_path_to_module_reference_parts` never yields an empty vector). -/
 def EventNoRoot (root : Mod) : Event Mod Content → Prop
-  | .didChange m _ => m ≠ root
-  | .didCreate files => ∀ p ∈ files, p.1 ≠ root
-  | .didRename pairs => ∀ p ∈ pairs, p.1 ≠ root ∧ p.2 ≠ root
+  | .didChange m _ => m ≠ some root
+  | .didCreate files => ∀ p ∈ files, p.1 ≠ some root
+  | .didRename pairs => ∀ p ∈ pairs, p.1 ≠ some root ∧ p.2 ≠ some root
   | .didDelete files => ∀ m, some m ∈ files → m ≠ root
 
 end Model
